@@ -11,45 +11,159 @@ sys.path.insert(0, os.path.dirname(os.path.abspath(__file__)))
 from build import *
 
 
-def snapshot(graph):
-    return [[s, fj(n.value), n.optimal_action, bool(n.expanded), int(n.visitorder), int(n.expandedorder)]
-            for s, n in graph.states_to_nodes.items()]
+FALSY = {"int0": 0, "float0": 0.0, "empty_str": "", "empty_tuple": (), "false": False}
 
 
-def plan_result(res, n, with_trace):
-    pol = []
-    for s in range(n):
+def state_label(rep, s, n):
+    k = rep.get("labels", "int")
+    if k == "int":
+        return s
+    if k == "perm":
+        return 1000 - 7 * s                      # ints, order reversed, no 0
+    if k == "str":
+        return "q%d" % (n - s)                   # sorted order differs from index order
+    if k == "tuple":
+        return (s % 2, s // 2)
+    # falsy:<which>: state 0 carries a falsy label, the others strings / tuples (mixed types)
+    if s == 0:
+        return FALSY[k.split(":")[1]]
+    return ("t", s) if s % 2 else "u%d" % s
+
+
+def action_label(rep, a):
+    k = rep.get("alabels", "int")
+    if k == "int":
+        return a
+    if k == "str":
+        return "act%d" % (9 - a)                 # reversed lexicographic order
+    if a == 0:
+        return FALSY[k.split(":")[1]]
+    return "b%d" % a
+
+
+def build_rep(m, rep):
+    """msdm MDP from a gen_mdp case through the PUBLIC constructors, in the representation `rep`
+    (label types, distribution classes, list/tuple action containers, tabular or plain QuickMDP,
+    initial_state vs initial_state_dist, int vs float discount); returns the MDP and the label maps"""
+    from msdm.core.mdp.quickmdp import QuickTabularMDP, QuickMDP
+    from msdm.core.distributions import DictDistribution
+    from msdm.core.distributions.dictdistribution import DeterministicDistribution
+    n = m["n"]
+    sl = [state_label(rep, s, n) for s in range(n)]
+    al = [action_label(rep, a) for a in range(m["nA"])]
+    assert len(set(map(lambda x: (type(x).__name__, x), sl))) == n and len({(type(x).__name__, x) for x in al}) == m["nA"]
+    mixed = rep.get("dist", "dict") == "mixed"
+    trans = {}
+    for k, row in m["trans"].items():
+        s, a = map(int, k.split(","))
+        ps = [fl(p) for ns, p in row]
+        if mixed and len(row) == 1:
+            d = DeterministicDistribution(sl[row[0][0]])
+        elif mixed and len(row) > 1 and len(set(row_p for ns, row_p in row)) == 1:
+            d = DictDistribution.uniform([sl[ns] for ns, p in row])
+        else:
+            d = DictDistribution({sl[ns]: p for (ns, _), p in zip(row, ps)})
+        trans[(s, a)] = d
+    rew = {}
+    for k, r in m["reward"].items():
+        s, a, ns = map(int, k.split(","))
+        rew[(s, a, ns)] = fl(r)
+    sidx = {}
+    for i, x in enumerate(sl):
+        sidx[(type(x).__name__, x)] = i
+    aidx = {(type(x).__name__, x): i for i, x in enumerate(al)}
+    si = lambda x: sidx[(type(x).__name__, x)]
+    ai = lambda x: aidx[(type(x).__name__, x)]
+    as_list = rep.get("actions_as", "tuple") == "list"
+    acts = [([al[a] for a in row] if as_list else tuple(al[a] for a in row)) for row in m["actions"]]
+    absorbing = list(m["absorbing"])
+    g = fl(m["gamma"])
+    if rep.get("gamma_int") and g == 1.0:
+        g = 1
+    kw = {}
+    pos = [(s, p) for s, p in m["init"]]
+    if rep.get("init_as") == "state" and len(pos) == 1:
+        kw["initial_state"] = sl[pos[0][0]]
+        if kw["initial_state"] is None:
+            kw = {}
+    if not kw:
+        kw["initial_state_dist"] = DictDistribution({sl[s]: fl(p) for s, p in m["init"]})
+    cls = QuickMDP if rep.get("cls") == "quick" else QuickTabularMDP
+    mdp = cls(next_state_dist=lambda s, a: trans[(si(s), ai(a))],
+              reward=lambda s, a, ns: rew.get((si(s), ai(a), si(ns)), 0.0),
+              actions=lambda s: acts[si(s)],
+              is_absorbing=lambda s: absorbing[si(s)],
+              discount_rate=g, **kw)
+    if rep.get("touch") and cls is QuickTabularMDP:
+        # a base object whose cached views were already used before planning
         try:
-            d = res.policy.action_dist(s)
-            pol.append([[a, fj(p)] for a, p in d.items()])
+            _ = mdp.state_list, mdp.action_list, mdp.transition_matrix, mdp.reward_matrix
+        except BaseException as e:
+            if isinstance(e, (KeyboardInterrupt, SystemExit)):
+                raise
+    return mdp, sl, al, si, ai
+
+
+def query_policy(res, sl, ai):
+    pol = []
+    for x in sl:
+        try:
+            d = res.policy.action_dist(x)
+            row = []
+            for a, p in d.items():
+                try:
+                    row.append([ai(a), fj(p)])
+                except KeyError:
+                    row.append([repr(a), fj(p)])       # an action label the MDP does not have
+            pol.append(row)
         except BaseException as e:
             if isinstance(e, (KeyboardInterrupt, SystemExit)):
                 raise
             pol.append({"error": type(e).__name__ + ": " + str(e)[:200]})
+    return pol
+
+
+def snapshot(graph, si, ai):
+    out = []
+    for s, n in graph.states_to_nodes.items():
+        try:
+            a = ai(n.optimal_action)
+        except KeyError:
+            a = repr(n.optimal_action)
+        out.append([si(s), fj(n.value), a, bool(n.expanded), int(n.visitorder), int(n.expandedorder)])
+    return out
+
+
+def plan_result(res, sl, si, ai, with_trace):
     out = {
         "converged": bool(res.converged),
         "iterations": int(res.iterations),
         "initial_value": fj(res.initial_value),
-        "initial_states": list(res.explicit_graph.initial_states),
-        "value_map": [[s, fj(v)] for s, v in res.state_value_map.items()],
-        "solution_states": list(res.solution_graph.states_to_nodes.keys()),
-        "tips": list(res.solution_graph.nonterminal_tip_states),
-        "policy": pol,
+        "initial_states": [si(s) for s in res.explicit_graph.initial_states],
+        "value_map": [[si(s), fj(v)] for s, v in res.state_value_map.items()],
+        "solution_states": [si(s) for s in res.solution_graph.states_to_nodes.keys()],
+        "tips": [si(s) for s in res.solution_graph.nonterminal_tip_states],
+        "policy_early": query_policy(res, sl, ai),
     }
     if with_trace:
-        out["nodes"] = snapshot(res.explicit_graph)
-        out["trace"] = res.event_listener.steps
+        out["nodes"] = snapshot(res.explicit_graph, si, ai)
+        out["trace"] = [{"expand": [si(x) for x in st["expand"]], "Z": sorted(si(x) for x in st["Z"]),
+                         "nodes": st["nodes"]} for st in res.event_listener.steps]
     else:
         out["n_nodes"] = len(res.explicit_graph.states_to_nodes)
     return out
 
 
 def one(case, pl):
-    """ONE LAOStar object; it plans on case["plans"][0], then [1], ... (same state/action labels)"""
+    """ONE LAOStar object; it plans on case["plans"][0], then [1], ... (same state/action labels).
+    Everything is reported by state / action INDEX, whatever labels the representation uses."""
     from msdm.algorithms.laostar import LAOStar, LAOStarEventListener
     from fractions import Fraction
+    import json
     import traceback
+    rep = case.get("rep", {})
     hv = [float(Fraction(int(x[0]), int(x[1]))) for x in case["h"]]
+    cur = {}
 
     class Rec(LAOStarEventListener):
         def __init__(self):
@@ -57,26 +171,62 @@ def one(case, pl):
 
         def main_lao_star_loop(self, lv):
             self.steps.append({"expand": list(lv["expand_states"]),
-                               "Z": sorted(lv["ancestors"].keys()),
-                               "nodes": snapshot(lv["explicit_graph"])})
+                               "Z": list(lv["ancestors"].keys()),
+                               "nodes": snapshot(lv["explicit_graph"], cur["si"], cur["ai"])})
 
-    if case.get("default_args"):
-        # default constructor arguments (iteration budget, flags, no listener); only heuristic and seed
-        lao = LAOStar(heuristic=lambda s: hv[s], seed=case["seed"])
+    if rep.get("h_as") in ("number", "int") and len(set(hv)) == 1:
+        heur = int(hv[0]) if rep["h_as"] == "int" and hv[0] == int(hv[0]) else hv[0]   # non-callable heuristic
     else:
-        lao = LAOStar(heuristic=lambda s: hv[s], seed=case["seed"],
-                      randomize_action_order=case["rao"], randomize_nextstate_order=case["rno"],
-                      event_listener_class=Rec)
-    outs = []
+        heur = lambda s: hv[cur["si"](s)]
+
+    def make(**extra):
+        if case.get("default_args"):
+            # default constructor arguments (iteration budget, flags, no listener); only heuristic and seed
+            return LAOStar(heuristic=heur, seed=case["seed"], **extra)
+        return LAOStar(heuristic=heur, seed=case["seed"],
+                       randomize_action_order=case["rao"], randomize_nextstate_order=case["rno"],
+                       event_listener_class=Rec, **extra)
+    lao = make()
+    outs, kept, built = [], [], {}
     for plan in case["plans"]:
         try:
-            mdp = build_mdp(plan["mdp"])
+            key = json.dumps(plan["mdp"], sort_keys=True)
+            if rep.get("mdp_reuse") and key in built:
+                b = built[key]                      # the very same MDP object is planned on again
+            else:
+                b = build_rep(plan["mdp"], rep)
+                built[key] = b
+            mdp, sl, al, si, ai = b
+            cur["si"], cur["ai"] = si, ai
             res = lao.plan_on(mdp)
-            outs.append(plan_result(res, plan["mdp"]["n"], not case.get("default_args")))
+            budget = None
+            mode = case.get("budget_mode")
+            if mode and res.iterations >= (1 if mode == "exact" else 2):
+                # a fresh planner whose main-loop budget is exactly the number of expansions needed (the
+                # loop runs out without passing through the `break`), or one short of it (must then
+                # report converged = False: the warning branch of plan_on)
+                budget = int(res.iterations) - (0 if mode == "exact" else 1)
+                res = make(max_lao_star_iterations=budget).plan_on(mdp)
+            o = plan_result(res, sl, si, ai, not case.get("default_args"))
+            o["budget"] = budget
+            o["budget_mode"] = case.get("budget_mode") if budget is not None else None
+            outs.append(o)
+            kept.append((res, sl, si, ai))
         except BaseException as e:
             if isinstance(e, (KeyboardInterrupt, SystemExit)):
                 raise
             outs.append({"error": type(e).__name__ + ": " + str(e)[:500], "trace_back": traceback.format_exc()[-1500:]})
+            kept.append(None)
+    # the returned policies are queried AGAIN after the planner object has moved on to other MDPs
+    for o, k in zip(outs, kept):
+        if k is None:
+            continue
+        res, sl, si, ai = k
+        cur["si"], cur["ai"] = si, ai
+        o["policy"] = query_policy(res, sl, ai)
+        o["policy_stable"] = (o["policy"] == o["policy_early"])
+        if len(sl) > 200:
+            del o["policy_early"]
     return {"plans": outs}
 
 
